@@ -155,3 +155,39 @@ def simplex_phase(
         basis_set.discard(basis[leave])
         basis[leave] = enter
         basis_set.add(enter)
+
+
+def drive_out_artificials(
+    tab: list[list[float]],
+    basis: list[int],
+    n_orig: int,
+    n_rows: int,
+    eps: float,
+) -> None:
+    """Pivot artificial variables that are still basic (at level zero) out of the basis.
+
+    After a successful phase 1 an artificial column (index >= n_orig) can remain basic at
+    value 0. Phase 2 never lets it leave (the ratio test skips rows with a non-positive
+    entry), so it could grow again and the "solution" would violate its constraint.
+    Replace it by any structural column with a non-zero entry in its row; a row without
+    one is redundant and harmless.
+    """
+    n_cols = len(tab[0])
+    for i in range(n_rows):
+        if basis[i] < n_orig:
+            continue
+        in_basis = set(basis)
+        for j in range(n_orig):
+            if j not in in_basis and abs(tab[i][j]) > eps:
+                piv = tab[i][j]
+                for c in range(n_cols):
+                    tab[i][c] /= piv
+                for r in range(n_rows + 1):
+                    if r != i:
+                        factor = tab[r][j]
+                        if abs(factor) > eps:
+                            for c in range(n_cols):
+                                tab[r][c] -= factor * tab[i][c]
+                basis[i] = j
+                break
+
